@@ -572,6 +572,7 @@ type wide struct{ hi, lo uint64 }
 type evaluator struct {
 	model map[string]uint64
 	memo  map[*Term]wide
+	bad   map[*Term]bool // terms known not to be evaluable (contain UFs / >128 bits)
 	fail  bool
 }
 
@@ -601,12 +602,24 @@ func (e *evaluator) evalBV(t *Term) (uint64, bool) {
 }
 
 func (e *evaluator) ev(t *Term) wide {
+	if e.fail {
+		return wide{} // sticky for the current top-level evaluation
+	}
 	if v, ok := e.memo[t]; ok {
 		return v
+	}
+	if e.bad[t] {
+		e.fail = true
+		return wide{}
 	}
 	v := e.ev1(t)
 	if !e.fail {
 		e.memo[t] = v
+	} else {
+		if e.bad == nil {
+			e.bad = map[*Term]bool{}
+		}
+		e.bad[t] = true
 	}
 	return v
 }
@@ -643,15 +656,20 @@ func (e *evaluator) ev1(t *Term) wide {
 	case "not":
 		return b2w(e.ev(t.args[0]).lo == 0)
 	case "and":
-		if e.ev(t.args[0]).lo == 0 && !e.fail {
+		a := e.ev(t.args[0])
+		if e.fail || a.lo == 0 {
 			return wide{}
 		}
-		return b2w(e.ev(t.args[0]).lo != 0 && e.ev(t.args[1]).lo != 0)
+		return b2w(e.ev(t.args[1]).lo != 0)
 	case "or":
-		if e.ev(t.args[0]).lo != 0 && !e.fail {
+		a := e.ev(t.args[0])
+		if e.fail {
+			return wide{}
+		}
+		if a.lo != 0 {
 			return wide{0, 1}
 		}
-		return b2w(e.ev(t.args[0]).lo != 0 || e.ev(t.args[1]).lo != 0)
+		return b2w(e.ev(t.args[1]).lo != 0)
 	case "ite":
 		c := e.ev(t.args[0])
 		if e.fail {
